@@ -231,8 +231,7 @@ Proof.
     + destruct (lookup s (r_n r)); repeat split.
     + apply C.
     + unfold ctx_branch.
-      destruct b; [destruct (r_cancel r)|destruct sig; [|destruct (r_cancel r)]];
-        try apply same_store_refl; try (repeat split; fail); apply C.
+      destruct (r_cancel r && (b || negb sig)); [apply C|]. destruct sig; [repeat split|apply same_store_refl].
   - repeat split.
   - apply same_store_refl.
 Qed.
@@ -448,9 +447,8 @@ Definition rnext (b : bool) (s : state) (r : reader) : reader :=
     end
   | RWait PDereg sig => with_pc r RLookup2
   | RWait PSelect sig =>
-    if b then (if r_cancel r then with_pc r (RDone RCtx) else r)
-    else if sig then with_pc r RLookup2
-    else if r_cancel r then with_pc r (RDone RCtx) else r
+    if r_cancel r && (b || negb sig) then with_pc r (RDone RCtx)
+    else if sig then with_pc r RLookup2 else r
   | RLookup2 => with_pc r (RDone (lookup_res s n))
   | RDone _ => r
   end.
@@ -511,8 +509,7 @@ Proof.
     + destruct (lookup s (r_n r)); apply T.
     + unfold dereg_branch. apply C. discriminate.
     + unfold ctx_branch.
-      destruct b; [destruct (r_cancel r); [apply C; discriminate | exact U]|].
-      destruct sig; [apply T|]. destruct (r_cancel r); [apply C; discriminate | exact U].
+      destruct (r_cancel r && (b || negb sig)); [apply C; discriminate|]. destruct sig; [apply T|exact U].
   - apply T.
   - exact U.
 Qed.
@@ -644,7 +641,7 @@ Proof.
     + destruct (r_n x <=? st_hsh s0); cbn; split; auto; lia.
     + destruct (lookup s0 (r_n x)); cbn; split; auto; lia.
     + cbn; split; auto; lia.
-    + rewrite Hx1. destruct b; [|destruct sig]; cbn; split; auto; lia.
+    + rewrite Hx1. destruct b, sig; cbn; split; auto; lia.
     + cbn; split; auto; lia.
     + rewrite Epc. cbn. split; auto; lia.
   - intros s0 k x [[Hx1 Hx2] Hx3] k' Hk. split; [split|]; auto. lia.
@@ -1065,10 +1062,8 @@ Proof.
   - destruct ph.
     + destruct (lookup s (r_n r)); apply NT; unfold parked, sigd; cbn; rewrite ?Epc; auto.
     + unfold dereg_branch. eapply InvK_dereg; eauto. discriminate.
-    + unfold ctx_branch. destruct b.
-      * destruct (r_cancel r); [eapply InvK_dereg; eauto; discriminate | exact IK].
-      * destruct sig; [apply NT; unfold parked, sigd; cbn; rewrite ?Epc; auto; discriminate|].
-        destruct (r_cancel r); [eapply InvK_dereg; eauto; discriminate | exact IK].
+    + unfold ctx_branch. destruct (r_cancel r && (b || negb sig)); [eapply InvK_dereg; eauto; discriminate|].
+      destruct sig; [apply NT; unfold parked, sigd; cbn; rewrite ?Epc; auto; discriminate|exact IK].
   - apply NT; unfold parked, sigd; cbn; rewrite ?Epc; auto; discriminate.
   - exact IK.
 Qed.
@@ -1126,7 +1121,7 @@ Definition InvP (s : state) : Prop :=
 Lemma InvP_init hd tl m ns q : InvP (init hd tl m ns q).
 Proof.
   split; [|intros n []]. cbn. apply Forall_forall. intros r Hr. apply in_map_iff in Hr as (n & <- & _).
-  unfold Pr. cbn. repeat split; try discriminate. intros sig H; discriminate.
+  unfold Pr, parked, blocked. cbn. repeat split; intros; discriminate.
 Qed.
 
 Lemma parked_has_sub s i r : InvK s -> nth_error (st_readers s) i = Some r -> parked r = true ->
@@ -1154,6 +1149,9 @@ Proof.
   destruct Hs as (a & b & c & d & e & f). unfold Pr, stored. rewrite Hl, d, e, f. tauto.
 Qed.
 
+Lemma blocked_sig_of r : blocked (sig_of r) = false.
+Proof. unfold blocked, sig_of. destruct (r_pc r) as [| | |[| |] [|]| |] eqn:E; cbn; rewrite ?E; reflexivity. Qed.
+
 Lemma blocked_parked r : blocked r = true -> parked r = true.
 Proof. unfold blocked, parked. destruct (r_pc r) as [| | |[| |] [|]| |]; auto. Qed.
 
@@ -1166,9 +1164,7 @@ Proof.
   rewrite signal_spec.
   destruct (parked r && (wp (st_w s) (r_n r) && has_sub (st_subs s) (r_n r))) eqn:Ehit.
   - apply andb_prop in Ehit as [Ep _]. unfold Pr. rewrite n_sig_of.
-    assert (Hb : blocked (sig_of r) = false).
-    { unfold blocked, sig_of. destruct (r_pc r) as [| | |[| |] [|]| |]; reflexivity. }
-    rewrite parked_sig_of, Hb.
+    rewrite parked_sig_of, blocked_sig_of.
     split; [discriminate|]. split; [discriminate|].
     unfold sig_of. unfold parked in Ep. destruct (r_pc r) as [| | |ph [|]| |] eqn:Epc; try discriminate. cbn.
     split; [intros sig [= -> _]; apply Hst, (PD false); reflexivity|].
@@ -1218,9 +1214,9 @@ Proof.
   - assert (Hpk : parked r = true -> st_hsh s < r_n r \/ cover (st_w s) (r_n r) = true) by exact P1.
     unfold parked in Hpk, P1. unfold blocked in P1'. unfold sigd in Hsig. rewrite Epc in *.
     assert (C : r_cancel r = true -> Pr s (with_pc r (RDone RCtx))).
-    { intros Ec. unfold Pr, parked, blocked; cbn. repeat split; try discriminate; auto. intros sg H; discriminate. }
+    { intros Ec. unfold Pr, parked, blocked; cbn. repeat split; try discriminate; auto. }
     assert (L2 : stored s (r_n r) \/ r_n r <= st_hsh s -> Pr s (with_pc r RLookup2)).
-    { intros H. unfold Pr, parked, blocked; cbn. repeat split; try discriminate; auto. intros sg H'; discriminate. }
+    { intros H. unfold Pr, parked, blocked; cbn. repeat split; try discriminate; auto. }
     assert (Same : Pr s r).
     { unfold Pr, parked, blocked. rewrite Epc. exact (conj P1 (conj P1' (conj PD (conj P2 (conj P3 (conj P4 P5)))))). }
     destruct ph.
@@ -1232,23 +1228,21 @@ Proof.
            destruct (mem (r_n r) (st_notified s)) eqn:Em; [|reflexivity]. exfalso. apply (Hnot eq_refl). exact El.
         -- split; [intros sg H; discriminate|]. repeat split; discriminate.
     + apply L2. left. apply (PD sig). reflexivity.
-    + destruct b.
-      * destruct (r_cancel r) eqn:Ec; [apply C; reflexivity | exact Same].
-      * destruct sig; [apply L2, Hsig; reflexivity|].
-        destruct (r_cancel r) eqn:Ec; [apply C; reflexivity | exact Same].
+    + destruct (r_cancel r) eqn:Ec; cbn [andb].
+      * destruct (b || negb sig) eqn:Eb; [apply C; reflexivity|].
+        destruct sig; [apply L2, Hsig; reflexivity|]. destruct b; discriminate.
+      * destruct sig; [apply L2, Hsig; reflexivity|exact Same].
   - unfold Pr, lookup_res, parked, blocked; cbn. specialize (P2 eq_refl).
     destruct (lookup s (r_n r)) eqn:El; repeat split; try discriminate; auto; try (intros sg H; discriminate).
     intros _. destruct P2 as [H|H]; [|exact H]. exfalso. apply H. exact El.
-  - unfold Pr, parked, blocked. rewrite Epc. exact (conj P1 (conj P1' (conj PD (conj P2 (conj P3 (conj P4 P5)))))).
+  - unfold Pr. rewrite Epc. exact (conj P1 (conj P1' (conj PD (conj P2 (conj P3 (conj P4 P5)))))).
 Qed.
 
 Lemma Pr_other s r r' : (other_rel r r' \/ r' = cancel_of r) -> Pr s r -> Pr s r'.
 Proof.
   intros [[->|[Hp ->]]| ->] P; auto.
   - destruct P as (P1 & P1' & PD & P2 & P3 & P4 & P5). unfold Pr. rewrite n_sig_of, parked_sig_of.
-    assert (Hb : blocked (sig_of r) = false).
-    { unfold blocked, sig_of. destruct (r_pc r) as [| | |[| |] [|]| |]; reflexivity. }
-    rewrite Hb. split; [discriminate|]. split; [discriminate|].
+    rewrite blocked_sig_of. split; [discriminate|]. split; [discriminate|].
     unfold sig_of. unfold parked in Hp. destruct (r_pc r) as [| | |ph [|]| |] eqn:Epc; try discriminate. cbn.
     split; [intros sig [= -> _]; apply (PD false); reflexivity|]. repeat split; discriminate.
   - destruct P as (P1 & P1' & PD & P2 & P3 & P4 & P5). unfold Pr, cancel_of, parked, blocked in *; cbn.
@@ -1336,7 +1330,9 @@ Definition enq_of (e : event) : list hid := match e with Enq hs => hs | _ => [] 
 
 Lemma signal_done p r x : r_pc (signal p r) = RDone x -> signal p r = r.
 Proof.
-  rewrite signal_spec. destruct (parked r && p (r_n r)); [cbn; discriminate|reflexivity].
+  rewrite signal_spec. destruct (parked r && p (r_n r)) eqn:E; [|reflexivity].
+  apply andb_prop in E as [E _]. unfold sig_of. unfold parked in E.
+  destruct (r_pc r) as [| | |ph [|]| |]; try discriminate.
 Qed.
 
 Lemma InvU_upd U s s' : InvU U s ->
@@ -1378,13 +1374,15 @@ Qed.
 Lemma rstep_queue b s i : st_queue (rstep b s i) = st_queue s.
 Proof.
   unfold rstep. destruct (nth_error (st_readers s) i) as [r|]; [|reflexivity].
-  destruct (r_pc r) as [| | |sig| |x].
+  destruct (r_pc r) as [| | |ph sig| |x].
   - destruct (r_n r =? 0); [reflexivity|]. destruct (lookup s (r_n r)); reflexivity.
   - destruct (r_n r <=? st_hsh s); reflexivity.
   - destruct (r_n r <=? st_hsh s); reflexivity.
-  - unfold ctx_branch.
-    destruct b; [destruct (r_cancel r)|destruct sig; [|destruct (r_cancel r)]];
-      try reflexivity; rewrite notify_one_queue; reflexivity.
+  - destruct ph.
+    + destruct (lookup s (r_n r)); reflexivity.
+    + unfold dereg_branch. rewrite notify_one_queue. reflexivity.
+    + unfold ctx_branch.
+      destruct (r_cancel r && (b || negb sig)); [rewrite notify_one_queue; reflexivity|]. destruct sig; reflexivity.
   - reflexivity.
   - reflexivity.
 Qed.
@@ -1392,11 +1390,13 @@ Qed.
 Lemma rnext_found b s r id : r_pc (rnext b s r) = RDone (RFound id) ->
   r_pc r = RDone (RFound id) \/ lookup s (r_n r) = Some id.
 Proof.
-  unfold rnext, lookup_res. destruct (r_pc r) as [| | |sig| |x] eqn:Epc; cbn.
+  unfold rnext, lookup_res. destruct (r_pc r) as [| | |[| |] sig| |x] eqn:Epc; cbn.
   - destruct (r_n r =? 0); cbn; [discriminate|]. destruct (lookup s (r_n r)); cbn; [intros [= ->]; auto|discriminate].
   - destruct (r_n r <=? st_hsh s); cbn; discriminate.
   - destruct (r_n r <=? st_hsh s); cbn; discriminate.
-  - destruct b; [destruct (r_cancel r)|destruct sig; [|destruct (r_cancel r)]]; cbn; rewrite ?Epc; discriminate.
+  - destruct (lookup s (r_n r)); cbn; discriminate.
+  - discriminate.
+  - destruct (r_cancel r && (b || negb sig)); [|destruct sig]; cbn; rewrite ?Epc; discriminate.
   - destruct (lookup s (r_n r)); cbn; [intros [= ->]; auto|discriminate].
   - rewrite Epc. auto.
 Qed.
@@ -1416,7 +1416,8 @@ Proof.
       rewrite rnext_n. destruct (rnext_found _ _ _ _ Hpc) as [H|H]; [auto|].
       eapply InvU_lookup; eauto.
     - destruct (step_other s e0 j r Eo E) as (r1 & E' & Hrel). rewrite E' in Ej. injection Ej as <-.
-      destruct Hrel as [[->|[Hp ->]]|[_ ->]]; cbn in *; auto. discriminate. }
+      destruct Hrel as [[->|[Hp ->]]|[_ ->]]; cbn in *; auto.
+      exfalso. unfold sig_of, parked in *. destruct (r_pc r) as [| | |ph [|]| |]; discriminate. }
   assert (SM : forall e0, same_store s (step s e0) -> st_queue (step s e0) = st_queue s -> InvU U (step s e0)).
   { intros e0 (a & b & c & d & e' & f) Q. constructor; rewrite ?a, ?b, ?c, ?e', ?Q;
       [exact (u_head U s IU) | exact (u_tail U s IU) | exact (u_map U s IU) | exact (u_queue U s IU)
@@ -1501,11 +1502,13 @@ Qed.
 (** * the theorems behind Props/C12.v *)
 Lemma rnext_cancel b s r : r_cancel (rnext b s r) = r_cancel r.
 Proof.
-  unfold rnext. destruct (r_pc r) as [| | |sig| |x]; cbn.
+  unfold rnext. destruct (r_pc r) as [| | |[| |] sig| |x]; cbn.
   - destruct (r_n r =? 0); [reflexivity|]. destruct (lookup s (r_n r)); reflexivity.
   - destruct (r_n r <=? st_hsh s); reflexivity.
   - destruct (r_n r <=? st_hsh s); reflexivity.
-  - destruct b, sig, (r_cancel r) eqn:Ec; cbn; auto.
+  - destruct (lookup s (r_n r)); reflexivity.
+  - reflexivity.
+  - destruct (r_cancel r && (b || negb sig)); [|destruct sig]; reflexivity.
   - reflexivity.
   - reflexivity.
 Qed.
@@ -1524,6 +1527,7 @@ Proof.
     rewrite rnext_n, rnext_cancel. auto.
   - destruct (step_other s e i r Eo E) as (r1 & E1 & Hrel). rewrite E1 in E'. injection E' as <-.
     destruct Hrel as [[->|[Hp ->]]|[-> ->]]; cbn; auto.
+    rewrite n_sig_of. unfold sig_of. destruct (r_pc r); auto.
 Qed.
 
 Lemma run_reader_back sched : forall s i r', nth_error (st_readers (run sched s)) i = Some r' ->
@@ -1568,8 +1572,8 @@ Proof.
   intros WF E Hpc.
   destruct (run_reader_back sched _ _ _ E) as (r0 & E0 & Hn & Hc).
   apply init_reader in E0 as [E0 Hc0]. split; [congruence|].
-  pose proof (Inv_run sched _ (Inv_init hd tl m ns q WF)) as [_ _ IP].
-  pose proof (Forall_nth _ _ _ _ IP E) as (_ & _ & P3 & P4 & P5).
+  pose proof (Inv_run sched _ (Inv_init hd tl m ns q WF)) as [_ _ [IP _]].
+  pose proof (Forall_nth _ _ _ _ IP E) as (_ & _ & _ & _ & P3 & P4 & P5).
   destruct x.
   - eapply result_is_the_header; eauto.
   - auto.
@@ -1577,27 +1581,41 @@ Proof.
   - auto.
 Qed.
 
-Lemma no_lost_wakeup_precise hd tl m ns q sched i r : wf_init hd tl m ->
+(** no lost wake-up, full strength *)
+Lemma no_lost_wakeup hd tl m ns q sched i r : wf_init hd tl m ->
   let s := run sched (init hd tl m ns q) in
-  nth_error (st_readers s) i = Some r -> r_pc r = RParked false ->
-  (st_w s = WIdle -> st_hsh s < r_n r /\ st_hsh s = hsh_of (st_head s)) /\
-  (writer_idle s = true -> In (r_n r) (map fst (concat q ++ enqueued sched)) -> r_late r = true).
+  nth_error (st_readers s) i = Some r ->
+  writer_idle s = true -> In (r_n r) (map fst (concat q ++ enqueued sched)) ->
+  blocked r = false.
 Proof.
-  intros WF s E Hpc.
-  pose proof (Inv_run sched _ (Inv_init hd tl m ns q WF)) as [IW _ IP]. fold s in IW, IP.
-  pose proof (Forall_nth _ _ _ _ IP E) as (P1 & _). destruct (P1 Hpc) as [A B]. split.
-  - intros Ew. rewrite Ew in A. cbn in A. split.
-    + destruct A; [auto|discriminate].
-    + pose proof (w_rest s IW) as H. rewrite Ew in H. auto.
-  - intros Hi Hin. apply B. apply mem_In.
-    pose proof (InvN_run _ sched _ (InvN_init hd tl m ns q)) as IN. fold s in IN.
-    rewrite <- map_app in IN. destruct (IN _ Hin) as [H|[H|H]]; [exact H| |];
-      unfold writer_idle in Hi; destruct (st_w s); try discriminate; destruct (st_queue s); try discriminate; destruct H.
+  intros WF s E Hi Hin.
+  pose proof (Inv_run sched _ (Inv_init hd tl m ns q WF)) as [IW _ [IP _]]. fold s in IW, IP.
+  pose proof (Forall_nth _ _ _ _ IP E) as (_ & P1' & _).
+  destruct (blocked r) eqn:Eb; [|reflexivity]. exfalso.
+  specialize (P1' eq_refl).
+  pose proof (InvN_run _ sched _ (InvN_init hd tl m ns q)) as IN. fold s in IN.
+  rewrite <- map_app in IN. destruct (IN _ Hin) as [H|[H|H]].
+  - apply mem_In in H. congruence.
+  - unfold writer_idle in Hi. destruct (st_w s); try discriminate; destruct H.
+  - unfold writer_idle in Hi. destruct (st_w s); try discriminate; destruct (st_queue s); try discriminate; destruct H.
 Qed.
 
-(** once signalled, a reader never parks again *)
+(** between flushes a registered waiter asked for a height above Height() = Head's height *)
+Lemma waiter_above_height hd tl m ns q sched i r : wf_init hd tl m ->
+  let s := run sched (init hd tl m ns q) in
+  nth_error (st_readers s) i = Some r -> parked r = true -> st_w s = WIdle ->
+  st_hsh s < r_n r /\ st_hsh s = hsh_of (st_head s).
+Proof.
+  intros WF s E Hpc Ew.
+  pose proof (Inv_run sched _ (Inv_init hd tl m ns q WF)) as [IW _ [IP _]]. fold s in IW, IP.
+  pose proof (Forall_nth _ _ _ _ IP E) as (P1 & _). specialize (P1 Hpc). rewrite Ew in P1. cbn in P1. split.
+  - destruct P1; [auto|discriminate].
+  - pose proof (w_rest s IW) as H. rewrite Ew in H. auto.
+Qed.
+
+(** once signalled, a reader never waits again *)
 Definition past (pc : rpc) : Prop :=
-  match pc with RParked true | RLookup2 | RDone _ => True | _ => False end.
+  match pc with RWait _ true | RLookup2 | RDone _ => True | _ => False end.
 
 Lemma past_run sched s i r : nth_error (st_readers s) i = Some r -> past (r_pc r) ->
   exists r', nth_error (st_readers (run sched s)) i = Some r' /\ past (r_pc r').
@@ -1606,16 +1624,19 @@ Proof.
   destruct (progress_run (fun _ _ x => past (r_pc x))) with (sched := sched) (s := s) (i := i) (r := r) (k := 0%nat)
     as (r' & H1 & H2); auto.
   - intros s0 e k x x' Hx [[->|[Hpk ->]]| ->]; cbn; auto.
-  - intros s0 e k x b Hx. unfold rnext. destruct (r_pc x) as [| | |[|]| |y] eqn:Epc; cbn in Hx; try contradiction.
-    + destruct b; [destruct (r_cancel x)|]; cbn; rewrite ?Epc; cbn; auto.
+    unfold sig_of, parked in *. destruct (r_pc x) as [| | |ph [|]| |]; try discriminate; cbn; auto.
+  - intros s0 e k x b Hx. unfold rnext. destruct (r_pc x) as [| | |[| |] [|]| |y] eqn:Epc; cbn in Hx; try contradiction.
+    + destruct (lookup s0 (r_n x)); cbn; auto.
+    + cbn; auto.
+    + destruct (r_cancel x && (b || negb true)); cbn; auto.
     + cbn. auto.
     + rewrite Epc. cbn. auto.
   - eauto.
 Qed.
 
-Lemma no_lost_wakeup_registered_first hd tl m ns q sched1 sched2 i r hs : wf_init hd tl m ->
+Lemma registered_first_woken hd tl m ns q sched1 sched2 i r hs : wf_init hd tl m ->
   let s1 := run sched1 (init hd tl m ns q) in
-  st_w s1 = WNotify hs -> nth_error (st_readers s1) i = Some r -> r_pc r = RParked false ->
+  st_w s1 = WNotify hs -> nth_error (st_readers s1) i = Some r -> parked r = true ->
   In (r_n r) (map fst hs) ->
   exists r', nth_error (st_readers (run (sched1 ++ Wr :: sched2) (init hd tl m ns q))) i = Some r' /\
              past (r_pc r').
@@ -1623,51 +1644,52 @@ Proof.
   intros WF s1 Ew E Hpc Hin.
   pose proof (Inv_run sched1 _ (Inv_init hd tl m ns q WF)) as [IW IK IP]. fold s1 in IW, IK, IP.
   rewrite run_app. fold s1. cbn [run fold_left step].
-  apply (past_run sched2 (wstep s1) i (sig_of r)); [|exact I].
-  rewrite wstep_readers_eq, nth_error_map, E. cbn. f_equal. rewrite signal_spec.
-  unfold parked. rewrite Hpc, Ew. cbn. apply mem_In in Hin. rewrite Hin.
-  rewrite (parked_has_sub s1 i r IK E Hpc). reflexivity.
+  apply (past_run sched2 (wstep s1) i (sig_of r)).
+  - rewrite wstep_readers_eq, nth_error_map, E. cbn. f_equal. rewrite signal_spec.
+    rewrite Hpc, Ew. cbn. apply mem_In in Hin. rewrite Hin.
+    rewrite (parked_has_sub s1 i r IK E Hpc). reflexivity.
+  - unfold sig_of, parked in *. destruct (r_pc r) as [| | |ph [|]| |]; try discriminate. exact I.
 Qed.
 
 (** a step of reader i leaves every other reader's record unchanged, except
-    that the last cancelled waiter's notify(n,false) may close a sub other
-    parked readers are selecting on -- only when the header is already stored *)
+    that a notify(n,false) that drops the count to zero may close a sub other
+    waiters are selecting on -- only when the header is already stored *)
 Lemma other_waiters s b i j rj : InvK s -> i <> j ->
   nth_error (st_readers s) j = Some rj ->
   nth_error (st_readers (rstep b s i)) j = Some rj \/
-  (r_pc rj = RParked false /\ nth_error (st_readers (rstep b s i)) j = Some (sig_of rj) /\ stored s (r_n rj)).
+  (parked rj = true /\ nth_error (st_readers (rstep b s i)) j = Some (sig_of rj) /\ stored s (r_n rj)).
 Proof.
   intros IK ne Ej. pose proof IK as [K1 K2].
   unfold rstep. destruct (nth_error (st_readers s) i) as [r|] eqn:E; [|left; exact Ej].
   assert (U : forall x, nth_error (upd (st_readers s) i x) j = Some rj) by (intros x; rewrite nth_upd_neq; auto).
-  assert (C : nth_error (st_readers (ctx_branch s i r)) j = Some rj \/
-              (r_pc rj = RParked false /\ nth_error (st_readers (ctx_branch s i r)) j = Some (sig_of rj) /\ stored s (r_n rj)) \/
-              (forall sig, r_pc r <> RParked sig)).
-  { destruct (r_pc r) as [| | |sig| |x] eqn:Epc; try (right; right; intros sg; discriminate).
-    unfold ctx_branch, notify_one. cbn [st_subs set_reader set_readers].
+  assert (C : forall ph sig pc, r_pc r = RWait ph sig ->
+     nth_error (st_readers (notify_one (r_n r) (set_reader s i (with_pc r pc)))) j = Some rj \/
+     (parked rj = true /\ nth_error (st_readers (notify_one (r_n r) (set_reader s i (with_pc r pc)))) j = Some (sig_of rj) /\ stored s (r_n rj))).
+  { intros ph sig pc Epc.
+    unfold notify_one. cbn [st_subs set_reader set_readers].
     destruct (sub_get (st_subs s) (r_n r)) as [c|] eqn:Esub; [|left; apply U].
     destruct (Nat.eqb (Nat.pred c) 0) eqn:Ec; [|left; apply U].
     apply Nat.eqb_eq in Ec. cbn. rewrite nth_error_map, U. cbn. rewrite signal_spec.
     destruct (parked rj && ((r_n rj =? r_n r) && has_sub (st_subs s) (r_n rj))) eqn:Eh; [|left; reflexivity].
-    right; left. apply andb_prop in Eh as [Eh1 Eh2]. apply andb_prop in Eh2 as [Eh2 Eh3]. apply N.eqb_eq in Eh2.
-    split; [unfold parked in Eh1; destruct (r_pc rj) as [| | |[|]| |]; try discriminate; reflexivity|].
-    split; [reflexivity|]. rewrite Eh2.
+    right. apply andb_prop in Eh as [Eh1 Eh2]. apply andb_prop in Eh2 as [Eh2 Eh3]. apply N.eqb_eq in Eh2.
+    split; [exact Eh1|]. split; [reflexivity|]. rewrite Eh2.
     pose proof (K1 (r_n r)) as Kn. rewrite Esub in Kn. destruct Kn as [Kc1 Kc2].
     destruct sig.
-    - destruct (K2 i r E Epc) as [_ B]. apply B. unfold has_sub. rewrite Esub. reflexivity.
+    - assert (Hsg : sigd r = true) by (unfold sigd; rewrite Epc; reflexivity).
+      destruct (K2 i r E Hsg) as [_ B]. apply B. unfold has_sub. rewrite Esub. reflexivity.
     - apply Kc2.
       assert (A1 : at_n (r_n r) r = true) by (unfold at_n, parked; rewrite Epc, N.eqb_refl; reflexivity).
       assert (A2 : at_n (r_n r) rj = true) by (unfold at_n; rewrite Eh1, Eh2, N.eqb_refl; reflexivity).
       pose proof (cnt_two _ _ i j r rj ne E Ej A1 A2). lia. }
-  destruct (r_pc r) as [| | |sig| |x] eqn:Epc.
+  destruct (r_pc r) as [| | |ph sig| |x] eqn:Epc.
   - destruct (r_n r =? 0); [|destruct (lookup s (r_n r))]; left; apply U.
   - destruct (r_n r <=? st_hsh s); left; apply U.
   - destruct (r_n r <=? st_hsh s); left; apply U.
-  - assert (C' : nth_error (st_readers (ctx_branch s i r)) j = Some rj \/
-              (r_pc rj = RParked false /\ nth_error (st_readers (ctx_branch s i r)) j = Some (sig_of rj) /\ stored s (r_n rj))).
-    { destruct C as [C|[C|C]]; auto. exfalso. apply (C sig). reflexivity. }
-    destruct b; [destruct (r_cancel r); [exact C'|left; exact Ej]|].
-    destruct sig; [left; apply U|]. destruct (r_cancel r); [exact C'|left; exact Ej].
+  - destruct ph.
+    + destruct (lookup s (r_n r)); left; apply U.
+    + unfold dereg_branch. apply (C PDereg sig). reflexivity.
+    + unfold ctx_branch. destruct (r_cancel r && (b || negb sig)); [apply (C PSelect sig); reflexivity|].
+      destruct sig; left; [apply U|exact Ej].
   - left; apply U.
   - left; exact Ej.
 Qed.
@@ -1677,7 +1699,7 @@ Lemma other_waiters_unaffected hd tl m ns q sched e i j rj : wf_init hd tl m -> 
   let s := run sched (init hd tl m ns q) in
   nth_error (st_readers s) j = Some rj ->
   nth_error (st_readers (step s e)) j = Some rj \/
-  (r_pc rj = RParked false /\ nth_error (st_readers (step s e)) j = Some (sig_of rj) /\ lookup s (r_n rj) <> None).
+  (parked rj = true /\ nth_error (st_readers (step s e)) j = Some (sig_of rj) /\ lookup s (r_n rj) <> None).
 Proof.
   intros WF ne He s Ej.
   pose proof (Inv_run sched _ (Inv_init hd tl m ns q WF)) as [_ IK _]. fold s in IK.
@@ -1693,7 +1715,7 @@ Lemma below_height_prompt hd tl m ns q sched1 sched2 i r : wf_init hd tl m ->
   (r_pc r = RStart \/ r_pc r = RCheck1 \/ r_pc r = RLocked) ->
   r_n r <> 0 -> r_n r <= st_hsh s ->
   exists r', nth_error (st_readers (run sched2 s)) i = Some r' /\
-    (forall sig, r_pc r' <> RParked sig) /\
+    (forall ph sig, r_pc r' <> RWait ph sig) /\
     ((3 <= rd_count sched2 i)%nat -> r_pc r' = RDone RNotFound \/ exists id, r_pc r' = RDone (RFound id)) /\
     (lookup s (r_n r) <> None -> r_pc r' <> RDone RNotFound).
 Proof.
@@ -1701,13 +1723,13 @@ Proof.
   pose proof (Inv_run sched1 _ (Inv_init hd tl m ns q WF)) as [IW _ _]. fold s in IW.
   destruct (below_height_gen s i r sched2 IW E Hn Hh Hpc) as (r' & k & E' & _ & Hb & Hk & Hs).
   exists r'. split; [exact E'|]. split; [|split].
-  - intros sig H. rewrite H in Hb. discriminate.
+  - intros ph sig H. rewrite H in Hb. discriminate.
   - intros Hc. assert (k = 0%nat) by lia. subst k.
-    destruct (r_pc r') as [| | |sg| |[id| | |]]; cbn in Hb; try discriminate; eauto.
+    destruct (r_pc r') as [| | |ph sg| |[id| | |]]; cbn in Hb; try discriminate; eauto.
   - exact Hs.
 Qed.
 
-Lemma cancel_releases s i sched : (i < length (st_readers s))%nat -> (5 <= rd_count sched i)%nat ->
+Lemma cancel_releases s i sched : (i < length (st_readers s))%nat -> (7 <= rd_count sched i)%nat ->
   exists r' x, nth_error (st_readers (run (Cancel i :: sched) s)) i = Some r' /\ r_pc r' = RDone x.
 Proof.
   intros Hi Hc. cbn [run fold_left step]. unfold cancel.
@@ -1715,54 +1737,125 @@ Proof.
   destruct (cancel_releases_gen (set_reader s i (cancel_of r)) i (cancel_of r) sched) as (r' & E' & _ & _ & Hk).
   - cbn. apply (nth_upd_eq _ _ _ _ E).
   - reflexivity.
-  - exists r'. destruct (r_pc r') as [| | |sg| |x] eqn:Epc; cbn [crank] in Hk; try lia. exists x. auto.
+  - exists r'. destruct (r_pc r') as [| | |[| |] sg| |x] eqn:Epc; cbn [crank] in Hk; try lia. exists x. auto.
 Qed.
 
-(** the lost wake-up: witness schedule *)
-Definition lost_wakeup_sched : list event :=
-  [Enq [(1, 1)]] ++ repeat Wr 10 ++ [Rd 0; Enq [(3, 3)]] ++ repeat Wr 10 ++ [Rd 0; Rd 0; Rd 0; Rd 0].
-
-Definition lost_state : state := Eval vm_compute in run lost_wakeup_sched (init None None [] [3] []).
-
-Lemma lost_state_eq : run lost_wakeup_sched (init None None [] [3] []) = lost_state.
-Proof. vm_compute. reflexivity. Qed.
-
-Lemma no_lost_wakeup_refuted :
-  exists sched ns, let s := run sched (init None None [] ns []) in
-    writer_idle s = true /\ In 3 (map fst (enqueued sched)) /\ lookup s 3 <> None /\
-    (exists r, nth_error (st_readers s) 0 = Some r /\ r_n r = 3 /\ r_pc r = RParked false /\ r_cancel r = false) /\
-    (forall e, (forall j, e <> Cancel j) -> (forall hs, e <> Enq hs) -> step s e = s).
+(** liveness: once Notify has announced height n, a call for n returns within
+    seven of its own steps, whatever the other threads do -- with the header,
+    unless its context ended (or it had returned ErrNotFound before) *)
+Lemma notified_mono s e n : In n (st_notified s) -> In n (st_notified (step s e)).
 Proof.
-  exists lost_wakeup_sched, [3]. cbv zeta. rewrite lost_state_eq. unfold lost_state.
-  split; [reflexivity|]. split; [cbn; auto|]. split; [cbn; discriminate|]. split.
-  - eexists. split; [reflexivity|]. cbn. auto.
-  - intros e H1 H2. destruct e as [i|i|i| |hs].
-    + destruct i as [|[|i]]; reflexivity.
-    + destruct i as [|[|i]]; reflexivity.
-    + exfalso. apply (H1 i). reflexivity.
-    + reflexivity.
-    + exfalso. apply (H2 hs). reflexivity.
+  destruct (step_same_or_w s e) as [(_ & _ & _ & _ & _ & f)| ->]; [rewrite f; auto|].
+  cbn. wcases s; cbn; auto. rewrite in_app_iff. auto.
 Qed.
+
+Lemma crank_sig_of r : crank (r_pc (sig_of r)) = crank (r_pc r).
+Proof. unfold sig_of. destruct (r_pc r) as [| | |[| |] sg| |] eqn:E; cbn; rewrite ?E; reflexivity. Qed.
+
+Lemma rnext_rank b s r : Pr s r -> mem (r_n r) (st_notified s) = true -> stored s (r_n r) ->
+  (crank (r_pc (rnext b s r)) <= Nat.pred (crank (r_pc r)))%nat /\
+  (r_pc (rnext b s r) = RDone RNotFound -> r_pc r = RDone RNotFound).
+Proof.
+  intros (_ & P1' & _) Hm Hst. unfold rnext, lookup_res, stored in *.
+  destruct (r_pc r) as [| | |[| |] sig| |x] eqn:Epc; cbn.
+  - destruct (r_n r =? 0); cbn; [split; [lia|discriminate]|].
+    destruct (lookup s (r_n r)); cbn; split; try lia; try discriminate; try congruence.
+  - destruct (r_n r <=? st_hsh s); cbn; split; try lia; discriminate.
+  - destruct (r_n r <=? st_hsh s); cbn; split; try lia; discriminate.
+  - destruct (lookup s (r_n r)); cbn; split; try lia; discriminate.
+  - split; [lia|discriminate].
+  - destruct (r_cancel r && (b || negb sig)) eqn:Ec; cbn; [split; [lia|discriminate]|].
+    destruct sig; cbn; [split; [lia|discriminate]|].
+    exfalso. unfold blocked in P1'. rewrite Epc in P1'. specialize (P1' eq_refl). congruence.
+  - destruct (lookup s (r_n r)); cbn; [split; [lia|discriminate]|congruence].
+  - rewrite Epc. cbn. split; [lia|auto].
+Qed.
+
+Lemma appended_returns_gen sched : forall s i r k, Inv s -> nth_error (st_readers s) i = Some r ->
+  In (r_n r) (st_notified s) -> (crank (r_pc r) <= k)%nat ->
+  exists r', nth_error (st_readers (run sched s)) i = Some r' /\ r_n r' = r_n r /\
+             (crank (r_pc r') <= k - rd_count sched i)%nat /\
+             (r_pc r' = RDone RNotFound -> r_pc r = RDone RNotFound).
+Proof.
+  induction sched as [|e l IH]; intros s i r k IV E Hn Hk; cbn [run fold_left].
+  - exists r. cbn. rewrite Nat.sub_0_r. auto.
+  - rewrite rd_count_own. pose proof IV as [IW IK [IP IN]].
+    pose proof (Forall_nth _ _ _ _ IP E) as P.
+    destruct (own_step e i) eqn:Eo.
+    + destruct (step_own s e i r Eo E) as [b E'].
+      assert (Hst : stored s (r_n r)) by (apply stored_map, IN, Hn).
+      destruct (rnext_rank b s r P (proj2 (mem_In _ _) Hn) Hst) as [Hr Hnf].
+      destruct (IH (step s e) i (rnext b s r) (Nat.pred k)) as (r' & H1 & H2 & H3 & H4); auto.
+      * apply Inv_step; auto.
+      * rewrite rnext_n. apply notified_mono; auto.
+      * lia.
+      * exists r'. split; [exact H1|]. split; [rewrite H2; apply rnext_n|]. split; [lia|auto].
+    + destruct (step_other s e i r Eo E) as (r1 & E' & Hrel).
+      assert (Hr1 : r_n r1 = r_n r /\ crank (r_pc r1) = crank (r_pc r) /\ (r_pc r1 = RDone RNotFound -> r_pc r = RDone RNotFound)).
+      { destruct Hrel as [[->|[Hp ->]]|[_ ->]]; auto.
+        rewrite n_sig_of, crank_sig_of. split; [auto|split; [auto|]].
+        unfold sig_of, parked in *. destruct (r_pc r) as [| | |ph [|]| |]; try discriminate. }
+      destruct Hr1 as (Hn1 & Hc1 & Hf1).
+      destruct (IH (step s e) i r1 k) as (r' & H1 & H2 & H3 & H4); auto.
+      * apply Inv_step; auto.
+      * rewrite Hn1. apply notified_mono; auto.
+      * lia.
+      * exists r'. split; [exact H1|]. split; [congruence|]. split; [exact H3|auto].
+Qed.
+
+Lemma appended_returns hd tl m ns q sched1 sched2 i r : wf_init hd tl m ->
+  let s := run sched1 (init hd tl m ns q) in
+  nth_error (st_readers s) i = Some r -> In (r_n r) (st_notified s) ->
+  (7 <= rd_count sched2 i)%nat ->
+  exists r' x, nth_error (st_readers (run sched2 s)) i = Some r' /\ r_pc r' = RDone x /\
+               (x = RNotFound -> r_pc r = RDone RNotFound).
+Proof.
+  intros WF s E Hn Hc.
+  pose proof (Inv_run sched1 _ (Inv_init hd tl m ns q WF)) as IV. fold s in IV.
+  destruct (appended_returns_gen sched2 s i r 7 IV E Hn) as (r' & H1 & _ & H3 & H4).
+  - destruct (r_pc r) as [| | |[| |] sg| |]; cbn; lia.
+  - exists r'. destruct (r_pc r') as [| | |[| |] sg| |x] eqn:Epc; cbn [crank] in H3; try lia.
+    exists x. split; [exact H1|]. split; [reflexivity|]. intros ->. auto.
+Qed.
+
+(** every height handed to Append is announced once its flush has finished *)
+Lemma flushed_is_notified hd tl m ns q sched n :
+  let s := run sched (init hd tl m ns q) in
+  writer_idle s = true -> In n (map fst (concat q ++ enqueued sched)) -> In n (st_notified s).
+Proof.
+  intros s Hi Hin.
+  pose proof (InvN_run _ sched _ (InvN_init hd tl m ns q)) as IN. fold s in IN.
+  rewrite <- map_app in IN. destruct (IN _ Hin) as [H|[H|H]]; [exact H| |];
+    unfold writer_idle in Hi; destruct (st_w s); try discriminate; destruct (st_queue s); try discriminate; destruct H.
+Qed.
+
+(** the schedule that lost the wake-up before 33d75f6 *)
+Definition lost_wakeup_sched : list event :=
+  [Enq [(1, 1)]] ++ repeat Wr 12 ++ [Rd 0; Enq [(3, 3)]] ++ repeat Wr 12 ++ repeat (Rd 0) 6.
 
 (** * facts tying a schedule's own counts to the reader's state (used by the oracle lemma) *)
 Lemma rnext_not_start b s r : r_pc (rnext b s r) <> RStart.
 Proof.
-  unfold rnext. destruct (r_pc r) as [| | |sig| |x] eqn:Epc; cbn.
+  unfold rnext. destruct (r_pc r) as [| | |[| |] sig| |x] eqn:Epc; cbn.
   - destruct (r_n r =? 0); [discriminate|]. destruct (lookup s (r_n r)); discriminate.
   - destruct (r_n r <=? st_hsh s); discriminate.
   - destruct (r_n r <=? st_hsh s); discriminate.
-  - destruct b, sig, (r_cancel r); cbn; rewrite ?Epc; discriminate.
+  - destruct (lookup s (r_n r)); discriminate.
+  - discriminate.
+  - destruct (r_cancel r && (b || negb sig)); [|destruct sig]; cbn; rewrite ?Epc; discriminate.
   - discriminate.
   - rewrite Epc. discriminate.
 Qed.
 
 Lemma rnext_not_check1 b s r : r_pc r <> RStart -> r_pc (rnext b s r) <> RCheck1.
 Proof.
-  intros H. unfold rnext. destruct (r_pc r) as [| | |sig| |x] eqn:Epc; cbn.
+  intros H. unfold rnext. destruct (r_pc r) as [| | |[| |] sig| |x] eqn:Epc; cbn.
   - congruence.
   - destruct (r_n r <=? st_hsh s); discriminate.
   - destruct (r_n r <=? st_hsh s); discriminate.
-  - destruct b, sig, (r_cancel r); cbn; rewrite ?Epc; discriminate.
+  - destruct (lookup s (r_n r)); discriminate.
+  - discriminate.
+  - destruct (r_cancel r && (b || negb sig)); [|destruct sig]; cbn; rewrite ?Epc; discriminate.
   - discriminate.
   - rewrite Epc. discriminate.
 Qed.
@@ -1776,9 +1869,10 @@ Proof.
               ((k <= 1)%nat -> r_pc x <> RStart) /\ (k = 0%nat -> r_pc x <> RStart /\ r_pc x <> RCheck1)).
   destruct (progress_run P) with (sched := sched) (s := s) (i := i) (r := r) (k := 2%nat) as (r' & H1 & H2 & H3); auto.
   - intros s0 e k x x' [A B] Hrel.
-    assert (Hx : r_pc x' = r_pc x \/ r_pc x' = RParked true).
-    { destruct Hrel as [[->|[_ ->]]| ->]; auto. }
-    unfold P. destruct Hx as [Hx|Hx]; rewrite Hx; split; auto; intros; try split; discriminate.
+    assert (Hx : r_pc x' = r_pc x \/ exists ph, r_pc x' = RWait ph true).
+    { destruct Hrel as [[->|[Hp ->]]| ->]; auto. right.
+      unfold sig_of, parked in *. destruct (r_pc x) as [| | |ph [|]| |]; try discriminate. eexists; reflexivity. }
+    unfold P. destruct Hx as [Hx|[ph Hx]]; rewrite Hx; split; auto; intros; try split; discriminate.
   - intros s0 e k x b [A B]. unfold P. split.
     + intros _. apply rnext_not_start.
     + intros Hk. split; [apply rnext_not_start|]. apply rnext_not_check1. apply A. lia.
